@@ -10,9 +10,16 @@ of its floats — is sent to the compiled checker, so "equal for all t and k" is
 diagram; diagrams are sampled.  The same run compares the output with the line-by-line model of
 `compute_landscape` (exactly on dyadic input).
 
-Known finding: the repeated-bar shortcut (`duplicate` counting + `L.append(L[-1])`).  A wrong result
-for which the guarded trace `_VERIF_TRACE` reports that the shortcut fired is attributed to it (counted,
-one KNOWN-FINDING line); a wrong result without a firing is a VIOLATION.
+Known finding: the repeated-bar shortcut (`duplicate` counting + `L.append(L[-1])`).  It is recognised BY CONTENT: a
+wrong result is attributed to it (counted, one KNOWN-FINDING line) only when the code's functions are exactly what the Lean
+model of the current sweep - shortcut included - returns on that diagram (and the model's shortcut fired; without a firing
+the model is proved correct).  Any other wrong result is a VIOLATION with the diagram as failing input, whether or not the
+guarded trace `_VERIF_TRACE` says the shortcut fired somewhere in the call; the trace count is only compared with the
+model's as part of the correspondence.
+
+Well-formedness is what the statement says: critical points ordered by abscissa, function zero outside them.  A repeated
+point [x,y],[x,y] and a depth without points (the zero function) are allowed; before the output goes to the Lean checker
+(whose `wellFormed` wants strictly increasing abscissae) this free part of the representation is removed (`normalise`).
 """
 import math
 import signal
@@ -25,16 +32,22 @@ from ..common import enc, ask, call
 from .. import corethm
 
 LEVEL = "translation_validation"
-RULE = ("diagrams from one PRNG: 0-9 bars (quick) / 0-40 (thorough), built by class "
+RULE = ("diagrams from one PRNG: 0-9 bars (quick) / 0-40 (thorough), plus a stream of 60-300 bars (thorough: up to 600) on a "
+        "half-integer lattice (half of them with pairwise distinct births), built by class "
         "(nested, touching, equal-birth, equal-death, duplicate, disjoint, mixed: each derived bar copies an end of "
         "an earlier bar), coordinates lattice/half/dyadic (scales 2^-20..2^20; float arithmetic exact, certified with "
-        "eps=0) or decimal/uniform (certified with eps=1e-9*scale), random input order, 1-3 diagrams with hom_deg "
+        "eps=0) or decimal/uniform (certified with eps=1e-9*largest |coordinate|, no floor; 15% rescaled by 2^-20, 2^20, 1e-6, "
+        "1e6, 3e-4 or 7e3), random input order, 1-3 diagrams with hom_deg "
         "selecting one, trailing infinite bar with prob 0.3; non-trivial = at least 2 bars; distinct by digest of "
         "(hom_deg, diagrams)")
 ASSUMPTIONS = [
     "np.interp of the critical pairs is the linear interpolation evalPL (base of the property's 'interpolated linearly')",
     "on lattice/half/dyadic input the code's (b+d)/2, (d-b)/2 are exact, so its output is certified with eps = 0; on "
-    "decimal/uniform input the output is certified within eps = 1e-9*max(1,|coordinates|) (rounding of midpoints)",
+    "decimal/uniform input the output is certified within eps = 1e-9*max|coordinate| (rounding of midpoints; relative to the "
+    "diagram's own scale, no absolute floor)",
+    "beyond 120 bars the Lean checker (cubic) is replaced by a numpy evaluation of the definition at every cut point and cell "
+    "midpoint (exact on the half-integer lattice of that stream; cross-checked against the checker up to 120 bars and on every "
+    "tenth small case)",
     "NaN coordinates and zero-length bars are outside the property's domain and are not generated",
     "an infinite death anywhere but in the last row is outside the property's domain ('finite diagrams'; only a trailing infinite "
     "bar is removed): the code then computes with inf and returns non-finite critical pairs, the model answers NonFinite; a "
@@ -43,7 +56,8 @@ ASSUMPTIONS = [
     "part of the main stream and are compared exactly with the dtype-free model, including the range where b+d exceeds the dtype "
     "(there the midpoint (b+d)/2 wrapped around before /repo fix 56d4899: int8 [[100,120],[90,110]] gave the abscissa -28)",
 ]
-TRUSTED = ["the guarded trace persim.landscapes.exact._VERIF_TRACE is used only to attribute a wrong result to the known repeated-bar shortcut",
+TRUSTED = ["the guarded trace persim.landscapes.exact._VERIF_TRACE is compared with the model's firing count as correspondence only; it "
+           "attributes nothing (the known finding is recognised by the output being the model's)",
            "the compiled driver executable is trusted as compiled by Lean's compiler, not checked by the kernel"]
 # theorems that carry a clause of the property (helper lemmas, concrete instances such as the shortcut counterexample, and
 # model glue about rejected / out-of-domain inputs are excluded)
@@ -89,6 +103,83 @@ def eval_pl(c, t):
     return Fraction(0)
 
 
+def malformed(c):
+    """what the statement demands of one returned depth: critical points ORDERED BY ABSCISSA and a function that VANISHES
+    OUTSIDE them.  A repeated point [x,y],[x,y] is ordered; a depth without points (or the single point [x,0]) is the zero
+    function.  Two different ordinates at one abscissa are not a function, and a non-zero end value does not vanish outside
+    (the landscape is continuous).  -> None or the reason"""
+    if len(c) == 0 or (len(c) == 1 and c[0][1] == 0):
+        return None
+    if len(c) == 1:
+        return "a single point with a non-zero ordinate"
+    if c[0][1] != 0 or c[-1][1] != 0:
+        return "non-zero end value: the function does not vanish outside its critical points"
+    for p, q in zip(c, c[1:]):
+        if p[0] > q[0]:
+            return "abscissae not ordered"
+        if p[0] == q[0] and p[1] != q[1]:
+            return "two ordinates at one abscissa"
+    return None
+
+
+def normalise(cps, bars):
+    """the same functions in the form the Lean checker's `wellFormed` wants (>= 2 points, strictly increasing abscissae):
+    repeated points dropped, trailing zero depths dropped, a zero depth elsewhere written as two zero points.  Only
+    representation the statement leaves free is removed; -> (cps', changed)"""
+    out, changed = [], False
+    for depth in cps:
+        d = []
+        for p in depth:
+            if d and d[-1][0] == p[0] and d[-1][1] == p[1]:
+                changed = True
+                continue
+            d.append([p[0], p[1]])
+        if len(d) == 0 or (len(d) == 1 and d[0][1] == 0):
+            changed = True
+            d = None
+        out.append(d)
+    while out and out[-1] is None:
+        out.pop()
+    xs = [x for b in bars for x in b] + [p[0] for d in out if d for p in d]
+    lo, hi = (min(xs), max(xs)) if xs else (0.0, 1.0)
+    if not lo < hi:
+        hi = lo + 1.0
+    return [d if d is not None else [[lo, 0.0], [hi, 0.0]] for d in out], changed
+
+
+def np_check(bars, cps, tol):
+    """the statement for one diagram in float arithmetic (numpy), for sizes the Fraction oracle cannot reach: both sides are
+    piecewise linear with breakpoints among the cut points (all b, d, (b_i+d_j)/2 and the code's abscissae), so comparing at
+    every cut point, every cell midpoint and one point on either side decides equality everywhere, here up to `tol` (float).
+    Independent of the checker and of the model.  -> None or a description"""
+    for k, c in enumerate(cps):
+        why = malformed([(float(x), float(y)) for x, y in c])
+        if why:
+            return "depth index %d is not well formed (%s): %s" % (k, why, [list(map(float, p)) for p in c][:12])
+    B = np.array(bars, dtype=float).reshape(-1, 2)
+    ev = [B[:, 0], B[:, 1], ((B[:, 0][:, None] + B[:, 1][None, :]) / 2).ravel()] + [np.array([p[0] for p in c], dtype=float) for c in cps]
+    ev = np.unique(np.concatenate(ev)) if ev else np.zeros(0)
+    if ev.size == 0:
+        return None
+    span = max(float(ev[-1] - ev[0]), abs(float(ev[0])), abs(float(ev[-1]))) or 1.0
+    pts = np.unique(np.concatenate([[ev[0] - span], ev, (ev[:-1] + ev[1:]) / 2, [ev[-1] + span]]))
+    K = max(len(B), len(cps)) + 1
+    for a in range(0, len(pts), 2048):
+        t = pts[a:a + 2048]
+        T = np.maximum(0.0, np.minimum(t[None, :] - B[:, 0:1], B[:, 1:2] - t[None, :])) if len(B) else np.zeros((0, len(t)))
+        T = -np.sort(-T, axis=0)
+        T = np.vstack([T, np.zeros((K - len(T), len(t)))])
+        C = np.zeros((K, len(t)))
+        for k, c in enumerate(cps):
+            if len(c) >= 2:
+                C[k] = np.interp(t, [p[0] for p in c], [p[1] for p in c], left=0.0, right=0.0)
+        bad = np.argwhere(~(np.abs(C - T) <= tol))
+        if len(bad):
+            k, j = bad[0]
+            return "depth index %d at t=%r: code %r, definition %r" % (k, float(t[j]), float(C[k, j]), float(T[k, j]))
+    return None
+
+
 def py_check(bars, cps, tol):
     """independent Python check of the whole statement for one diagram: both sides are piecewise linear with
     breakpoints among the cut points, so comparing at every cut point, every cell midpoint and one point on either
@@ -96,9 +187,9 @@ def py_check(bars, cps, tol):
     fb = [(F(b), F(d)) for b, d in bars]
     fc = [[(F(x), F(y)) for x, y in c] for c in cps]
     for k, c in enumerate(fc):
-        if len(c) < 2 or c[0][1] != 0 or c[-1][1] != 0 or any(p[0] >= q[0] for p, q in zip(c, c[1:])):
-            return ("depth index %d is not well formed (needs >=2 points, strictly increasing abscissae, zero end values): %s"
-                    % (k, [[float(x), float(y)] for x, y in c][:12]))
+        why = malformed(c)
+        if why:
+            return ("depth index %d is not well formed (%s): %s" % (k, why, [[float(x), float(y)] for x, y in c][:12]))
     ev = set()
     for b, d in fb:
         ev.update((b, d, (b + d) / 2))
@@ -205,9 +296,13 @@ def gen_case(ctx, nmax):
     # sizes: every small size often, the large ones regularly
     n = r.randint(0, min(nmax, 9)) if r.random() < 0.7 else r.randint(0, nmax)
     bars = gen_bars(ctx, n, mode, cls)
-    if mode in EXACT_MODES and r.random() < 0.15:          # a common scale 2^±20 (exact in floats)
-        s = 2.0 ** r.choice([-20, 20])
-        bars = [[b * s, d * s] for b, d in bars]
+    if r.random() < 0.15:
+        # a common scale: 2^±20 (exact in floats) on the exact modes; on decimal/uniform coordinates also scales that are
+        # not powers of two (new roundings).  Tolerances are relative to the coordinates, so small scales are not vacuous
+        s = 2.0 ** r.choice([-20, 20]) if mode in EXACT_MODES else r.choice([2.0 ** -20, 2.0 ** 20, 1e-6, 1e6, 3e-4, 7e3])
+        scaled = [[b * s, d * s] for b, d in bars]
+        if all(b < d for b, d in scaled):
+            bars = scaled
     ndg = r.randint(1, 3)
     h = r.randrange(ndg)
     dgms = []
@@ -302,7 +397,8 @@ def run_code(dgms, hom_deg, dtype=float):
 
 
 def scale_of(bars):
-    return max([1.0] + [abs(x) for b in bars for x in b if math.isfinite(x)])
+    """the natural scale of a diagram: its largest |coordinate| (no floor: a diagram in units of 2^-20 is judged in those units)"""
+    return max([0.0] + [abs(x) for b in bars for x in b if math.isfinite(x)])
 
 
 def interp_code(cps, k, t):
@@ -368,9 +464,14 @@ def run(ctx):
         bars = selected_bars(c)
         exact_mode = c["mode"] in EXACT_MODES
         eps = 0.0 if exact_mode else 1e-9 * scale_of(bars)
+        c["eps"] = eps
         rows.append((c, bars, st, out, fired, eps))
+        # the checker sees the code's functions with the free part of the representation removed (repeated points, empty depths)
+        norm, changed = normalise(out, bars) if st == "ok" else ([], False)
+        if changed:
+            ctx.count("output_with_repeated_points_or_empty_depths")
         lines.append("pl.exact %d %s" % (c["hom_deg"], enc(c["dgms"])))
-        lines.append("pl.certify %s %s %s" % (enc(eps), enc(bars), enc(out if st == "ok" else [])))
+        lines.append("pl.certify %s %s %s" % (enc(eps), enc(bars), enc(norm)))
         if st != "ok" and sum(1 for r_ in rows if r_[2] != "ok") >= 3:      # exceptions / hangs: three inputs are enough
             break
     answers = ask(lines)
@@ -391,9 +492,12 @@ def run(ctx):
             ctx.count("rounding_edge_certified_via_model")
             cert = [True]
         cls = classify(bars)
+        rcase = {"dgms": c["dgms"], "hom_deg": c["hom_deg"], "dtype": c.get("dtype", "float64"), "eps": eps}
         ctx.case({"hom_deg": c["hom_deg"], "dgms": c["dgms"], "dtype": c.get("dtype", "float64")}, nontrivial=len(bars) >= 2, sample_every=401)
         ctx.count("dtype:" + c.get("dtype", "float64") + (":b+d_exceeds_dtype" if c.get("wraps") else ""))
         ctx.count("mode:" + c["mode"]); ctx.count("gen_class:" + c["class"]); ctx.count("bars:%d" % min(len(bars), 41))
+        if scale_of(bars) > 0:
+            ctx.count("scale:%s:2^%d" % ("exact" if eps == 0 else "decimal", 10 * round(math.log2(scale_of(bars)) / 10)))
         for k in cls:
             ctx.count("has:" + k)
         if len(c["dgms"]) > 1:
@@ -403,8 +507,7 @@ def run(ctx):
         if st != "ok":
             # a well-formed diagram must yield a landscape: an exception or a non-terminating sweep fails the property
             ctx.count("no_result:" + st)
-            ctx.violation("PersLandscapeExact gives no landscape for a well-formed diagram: %s %s" % (st, out),
-                          {"dgms": c["dgms"], "hom_deg": c["hom_deg"], "dtype": c.get("dtype", "float64")}, found_input=True)
+            ctx.violation("PersLandscapeExact gives no landscape for a well-formed diagram: %s %s" % (st, out), rcase, found_input=True)
             if len(ctx.violations) > 5:
                 break
             continue
@@ -420,21 +523,34 @@ def run(ctx):
             wrong = confirm(bars, out, cert, Fraction(eps))
             if wrong is None:
                 raise common.HarnessError("checker said F %r but the Python oracle finds no difference: %r" % (cert, c))
-        # (i) correspondence with the model of compute_landscape
-        mdl_ok = isinstance(model, list) and len(model) == 2 and same_cps(out, model[0], eps) and int(model[1]) == fired
+        if i % 10 == 0 and cert[0] and eps == 0:
+            # harness self-check of the float oracle used beyond 40 bars: it must not reject what the checker certified
+            nw = np_check(bars, out, 1e-9 * scale_of(bars))
+            if nw is not None:
+                raise common.HarnessError("numpy oracle rejects an output the checker certified: %s on %r" % (nw, c))
+        # (i) correspondence with the model of compute_landscape (shortcut included)
+        # (the FUNCTIONS are compared for the attribution: repeated points / empty depths removed; the raw lists for the tie)
+        out_eq_model = isinstance(model, list) and len(model) == 2 and same_cps(normalise(out, bars)[0], model[0], eps)
+        model_fired = int(model[1]) if isinstance(model, list) and len(model) == 2 else 0
+        mdl_ok = out_eq_model and same_cps(out, model[0], eps) and model_fired == fired
         if wrong is not None:
-            if fired:
+            # attribution BY CONTENT: the wrong output is the known finding only if it is exactly what the model of the current
+            # code - the sweep WITH the repeated-bar shortcut - returns (then the model's shortcut fired: without a firing the
+            # model is correct, `sweep_correct_of_not_fired`).  The trace alone attributes nothing: a wrong output that
+            # differs from the model's is a different failure even when the shortcut fired somewhere in the call
+            if out_eq_model and model_fired > 0:
                 fired_wrong += 1
-                ctx.count("wrong_with_shortcut_fired")
+                ctx.count("wrong_and_equal_to_the_model_with_shortcut")
                 ctx.known(KNOWN_KEY, known_text(kf))
             else:
-                ctx.violation("exact landscape differs from the k-th-largest-tent definition and the repeated-bar shortcut did "
-                              "not fire: " + wrong, {"dgms": c["dgms"], "hom_deg": c["hom_deg"], "dtype": c.get("dtype", "float64")},
-                              found_input=True, checker=repr(cert), code_output=out)
+                ctx.count("wrong_and_not_the_known_output")
+                ctx.violation("exact landscape differs from the k-th-largest-tent definition and is NOT the output of the known "
+                              "repeated-bar shortcut (trace: shortcut fired %d time(s); the model of the current code, shortcut "
+                              "included, returns %s): %s" % (fired, "something else" if isinstance(model, list) else repr(model), wrong),
+                              rcase, found_input=True, checker=repr(cert), code_output=out, model_output=repr(model)[:2000])
         if not mdl_ok:
-            # correspondence broke.  Either the property holds on this input (the checker accepted the code's output), or
-            # the result is wrong with the shortcut fired but is not what the model of the current code (shortcut
-            # included) returns — then something besides the known shortcut changed
+            # correspondence broke (critical pairs, their representation, or the number of firings the trace reports).  The
+            # property itself was judged above on this input
             if wrong is None:
                 disagreements += 1
             ctx.count("model_mismatch")
@@ -443,32 +559,36 @@ def run(ctx):
         if wrong is None and fired:
             ctx.count("shortcut_fired_but_correct")
         # [T] the statement sampled directly on the real code by np.interp (float side of the claim)
-        if bars and i % 5 == 0:
+        if bars and i % 5 == 0 and wrong is None:
             lo = min(b[0] for b in bars); hi = max(b[1] for b in bars)
             ok = True
             for _ in range(3):
                 t = Fraction(r.uniform(lo - 0.1 * (hi - lo), hi + 0.1 * (hi - lo)))
                 k = r.randrange(len(bars) + 1)
-                if abs(Fraction(interp_code(out, k, t)) - lam(bars, k, t)) > Fraction(1e-9 * scale_of(bars)):
+                if abs(Fraction(interp_code(out, k, t)) - lam(bars, k, t)) > Fraction(max(eps, 1e-9 * scale_of(bars))):
                     ok = False
-            if wrong is None:
-                ctx.test("pointwise_interp", ok)
-                if not ok and not fired:
-                    ctx.violation("np.interp of the code's critical pairs differs from the definition at a sampled t although the "
-                                  "checker accepted the output", {"dgms": c["dgms"], "hom_deg": c["hom_deg"], "dtype": c.get("dtype", "float64")}, found_input=True)
+            ctx.test("pointwise_interp", ok)
+            if not ok:
+                # the output is certified equal to the definition for all t: this is the np.interp assumption, not the code
+                ctx.violation("np.interp of the code's critical pairs differs from the definition at a sampled t although the "
+                              "checker accepted the output (assumption 'np.interp is linear interpolation' does not hold)",
+                              {"correspondence": "np.interp", "line": "pl.exact %d %s" % (c["hom_deg"], enc(c["dgms"])), "code": out,
+                               "model": "certified"}, found_input=False)
         if len(ctx.violations) > 5:
             break
 
     ctx.extra["programs"] = programs
     ctx.extra["disagreements_checked"] = disagreements
     ctx.extra["shortcut_fired_cases"] = fired_cases
-    ctx.extra["shortcut_fired_and_wrong"] = fired_wrong
+    ctx.extra["wrong_and_attributed_to_known_shortcut_by_content"] = fired_wrong
+    if not any(f for _, f in ctx.violations):
+        stream_large(ctx, kf)
     mm = ctx.counters.get("model_mismatch", 0)
     if mm and not any(f for _, f in ctx.violations):
         fm = ctx.extra.get("first_model_mismatch", {})
-        ctx.violation("critical pairs (or shortcut firings) of the real code differ from the model of compute_landscape on %d "
-                      "diagram(s); on each of them the code's output was still certified equal to the definition, or was wrong "
-                      "with the known shortcut fired" % mm,
+        ctx.violation("critical pairs (their representation, or the number of shortcut firings the trace reports) of the real code "
+                      "differ from the model of compute_landscape on %d diagram(s); on each of them the code's output was still "
+                      "certified equal to the definition, or was exactly the known shortcut output" % mm,
                       {"correspondence": "pl.exact", "line": "pl.exact %d %s" % (fm["case"]["hom_deg"], enc(fm["case"]["dgms"])),
                        "code": fm.get("code"), "code_fired": fm.get("code_fired"), "model": fm.get("model")}, found_input=False)
     class_share(ctx, programs)
@@ -548,23 +668,94 @@ def known_text(kf):
 
 
 def known_replay(ctx, kf):
-    """replay the listed finding on the real code; while it still fails print the KNOWN-FINDING line"""
+    """replay the listed finding on the real code; while it still fails IN THE LISTED WAY (the output is what the model of
+    the sweep with the shortcut returns) print the KNOWN-FINDING line"""
     st, out, fired = run_code([KNOWN_CASE], 0)
-    ans = ask(["pl.certify 0 %s %s" % (enc(KNOWN_CASE), enc(out if st == "ok" else []))])[0]
-    fails = st == "ok" and not ans[0] and py_check(KNOWN_CASE, out, Fraction(0)) is not None
+    ans, model = ask(["pl.certify 0 %s %s" % (enc(KNOWN_CASE), enc(normalise(out, KNOWN_CASE)[0] if st == "ok" else [])),
+                      "pl.exact 0 %s" % enc([KNOWN_CASE])])
+    fails = st != "ok" or (not ans[0] and py_check(KNOWN_CASE, out, Fraction(0)) is not None)
+    as_listed = st == "ok" and isinstance(model, list) and same_cps(normalise(out, KNOWN_CASE)[0], model[0], 0) and int(model[1]) > 0
     ctx.extra["known_finding_still_fails"] = bool(fails)
     ctx.extra["known_finding_shortcut_fired"] = fired
-    if fails and fired:
+    ctx.extra["known_finding_output_is_the_listed_one"] = bool(as_listed)
+    case = {"dgms": [KNOWN_CASE], "hom_deg": 0, "eps": 0.0}
+    if fails and as_listed:
         if not kf:
-            ctx.violation("the repeated-bar defect is present but not listed in known_findings.txt",
-                          {"dgms": [KNOWN_CASE], "hom_deg": 0}, found_input=True)
+            ctx.violation("the repeated-bar defect is present but not listed in known_findings.txt", case, found_input=True)
         else:
             ctx.known(KNOWN_KEY, known_text(kf))
     elif fails:
-        ctx.violation("[(1,5),(1,5),(3,6)] is wrong and the shortcut trace did not fire", {"dgms": [KNOWN_CASE], "hom_deg": 0},
-                      found_input=True)
+        ctx.violation("[(1,5),(1,5),(3,6)] is wrong in a way that is not the listed repeated-bar shortcut output (code: %s %r)"
+                      % (st, out), case, found_input=True)
     else:
         print("note: the listed known finding of C03 no longer reproduces on this tree", flush=True)
+
+
+def gen_large(ctx):
+    """hundreds of bars on a half-integer lattice times a common power of two (float arithmetic exact).  Either all births
+    are pairwise distinct (then, by `sweep_correct_of_distinct_births`, the model of the current code is correct: nothing can
+    be attributed to the known finding) or births/deaths/bars repeat freely."""
+    r = ctx.rng
+    n = r.choice([60, 100, 150, 220, 300] if not ctx.thorough else [100, 200, 300, 400, 600])
+    width = r.choice([n // 2, n, 3 * n])
+    distinct = r.random() < 0.5
+    s = 2.0 ** r.choice([-20, 0, 0, 0, 20])
+    births = r.sample(range(0, max(2 * width, n) + 1), n) if distinct else [r.randint(0, 2 * width) for _ in range(n)]
+    bars = []
+    for b in births:
+        if bars and not distinct and r.random() < 0.1:
+            bars.append(list(r.choice(bars)))
+            continue
+        bars.append([b / 2.0 * s, (b + r.randint(1, max(2, width))) / 2.0 * s])
+    r.shuffle(bars)
+    return {"dgms": [bars], "hom_deg": 0, "mode": "half", "class": "large-distinct-births" if distinct else "large-with-ties", "eps": 0.0}
+
+
+CERTIFY_MAX = 120     # the Lean checker is cubic in the number of bars: beyond this size the float oracle alone judges
+
+
+def stream_large(ctx, kf):
+    """[T] diagrams of 60-300 bars (thorough: up to 600): the definition is evaluated in numpy at every cut point and cell
+    midpoint (exact on this lattice), the model of the sweep is run on the same input for the attribution by content, and up to
+    CERTIFY_MAX bars the Lean checker is run as well"""
+    cases = [gen_large(ctx) for _ in range(ctx.n(24, 120))]
+    outs = [run_code(c["dgms"], 0) for c in cases]
+    lines = []
+    for c, (st, out, fired) in zip(cases, outs):
+        bars = c["dgms"][0]
+        lines.append("pl.exact 0 %s" % enc(c["dgms"]))
+        lines.append("pl.certify 0 %s %s" % ((enc(bars), enc(normalise(out, bars)[0])) if st == "ok" and len(bars) <= CERTIFY_MAX else ("[]", "[]")))
+    answers = ask(lines)
+    for i, (c, (st, out, fired)) in enumerate(zip(cases, outs)):
+        bars, model, cert = c["dgms"][0], answers[2 * i], answers[2 * i + 1]
+        rcase = {"dgms": c["dgms"], "hom_deg": 0, "dtype": "float64", "eps": 0.0}
+        ctx.case({"hom_deg": 0, "dgms": c["dgms"], "dtype": "float64"}, True, sample_every=0)
+        ctx.count("large:%s" % c["class"]); ctx.count("large:bars>=%d" % (100 * (len(bars) // 100)))
+        if st != "ok":
+            ctx.test("large_diagrams", False)
+            ctx.violation("PersLandscapeExact gives no landscape for a well-formed diagram of %d bars: %s %s" % (len(bars), st, out),
+                          rcase, found_input=True)
+            return
+        wrong = np_check(bars, out, 1e-9 * scale_of(bars))
+        if len(bars) <= CERTIFY_MAX and bool(cert[0]) != (wrong is None):
+            raise common.HarnessError("checker %r and numpy oracle %r disagree on %r" % (cert, wrong, c))
+        out_eq_model = isinstance(model, list) and len(model) == 2 and same_cps(normalise(out, bars)[0], model[0], 0)
+        model_fired = int(model[1]) if isinstance(model, list) and len(model) == 2 else 0
+        if wrong is not None and out_eq_model and model_fired > 0:
+            ctx.count("large:wrong_and_equal_to_the_model_with_shortcut")
+            ctx.known(KNOWN_KEY, known_text(kf))
+            continue
+        ctx.test("large_diagrams", wrong is None)
+        if wrong is not None:
+            ctx.violation("exact landscape of %d bars differs from the k-th-largest-tent definition and is NOT the output of the "
+                          "known repeated-bar shortcut (trace: fired %d time(s)): %s" % (len(bars), fired, wrong), rcase,
+                          found_input=True, code_output=out if len(repr(out)) < 20000 else "(long)")
+            return
+        if not (out_eq_model and same_cps(out, model[0], 0) and model_fired == fired):
+            ctx.count("model_mismatch")
+            if ctx.counters["model_mismatch"] <= 1:
+                ctx.extra["first_model_mismatch"] = {"case": c, "code": out if len(repr(out)) < 20000 else "(long)", "code_fired": fired,
+                                                     "model": repr(model)[:2000]}
 
 
 def replay(ctx, rep):
@@ -577,18 +768,28 @@ def replay(ctx, rep):
     h = c["hom_deg"]
     dtype = c.get("dtype", "float64")
     st, out, fired = run_code(dgms, h, float if dtype == "float64" else dtype)
-    print("PersLandscapeExact(dgms=%r (dtype %s), hom_deg=%d).critical_pairs ->" % (dgms, dtype, h))
-    print("  ", out, " shortcut fired:", fired)
+    print("PersLandscapeExact(dgms=%s (dtype %s), hom_deg=%d).critical_pairs ->" % (repr(dgms)[:3000], dtype, h))
+    print("  ", repr(out)[:3000], " shortcut fired:", fired)
     if st != "ok":
         print("no landscape:", st, out)
         return False
     bars = selected_bars({"dgms": dgms, "hom_deg": h})
-    exact_in = all(float(x) == round(float(x) * 2 ** 30) / 2 ** 30 for b in bars for x in b)
-    eps = Fraction(0) if exact_in else Fraction(1e-9 * scale_of(bars))
+    if "eps" in c:
+        eps = Fraction(float(c["eps"]))
+    else:
+        exact_in = all(float(x) == round(float(x) * 2 ** 30) / 2 ** 30 for b in bars for x in b)
+        eps = Fraction(0) if exact_in else Fraction(1e-9 * scale_of(bars))
+    if len(bars) > 40:
+        res = np_check(bars, out, max(float(eps), 1e-9 * scale_of(bars)))
+        print("definition vs code (numpy oracle at every cut point and cell midpoint):", "equal" if res is None else res)
+        return res is None
     res = py_check(bars, out, eps)
     try:
-        ans = ask(["pl.certify %s %s %s" % (enc(eps), enc(bars), enc(out)), "pl.exact %d %s" % (h, enc(dgms))])
+        ans = ask(["pl.certify %s %s %s" % (enc(eps), enc(bars), enc(normalise(out, bars)[0])), "pl.exact %d %s" % (h, enc(dgms))])
         print("Lean checker on the code's output:", ans[0])
+        if isinstance(ans[1], list):
+            print("output equals the model of the current code (sweep with the repeated-bar shortcut; model fired %s): %s"
+                  % (ans[1][1], same_cps(out, ans[1][0], float(eps))))
         if res is not None and eps > 0 and isinstance(ans[1], list) and same_cps(out, ans[1][0], float(eps)):
             # rounding edge (see run): verdict through the model's exact output
             res = py_check(bars, [[[x, y] for x, y in d] for d in ans[1][0]], Fraction(0))
@@ -618,11 +819,15 @@ MANIFEST = {
             "code never fires and its output is well formed and equals the landscape for all t and k; pairwise distinct BARS are not "
             "enough (`distinct_bars_not_enough`: [(0,4),(2,6),(2,4),(3,5)], a Case-III residual duplicates an original bar). "
             "The known repeated-bar-shortcut defect is a theorem about that model (`shortcut_counterexample`) "
-            "and is reported as KNOWN-FINDING; wrong results are attributed to it only when the guarded trace says the shortcut fired.",
+            "and is reported as KNOWN-FINDING; a wrong result is attributed to it only when the code's functions EQUAL the output of that "
+            "model (sweep with the shortcut) on the same diagram - a wrong result that differs from it is a VIOLATION with a failing "
+            "input even if the trace fired. A stream of 60-300 bars (thorough 600) is judged by a numpy evaluation of the definition "
+            "at every cut point (Lean checker up to 120 bars). Repeated points and empty depths in the output are accepted (the "
+            "statement says 'ordered by abscissa').",
     "note": "Trusted: Lean kernel + Mathlib (axioms propext/Classical.choice/Quot.sound), the harness/protocol, the compiled driver "
             "executable (compiled by Lean's compiler, not checked by the kernel), np.interp as linear interpolation. A diagram with an "
             "infinite death in a row that is not the last is outside the property ('finite diagrams'): code (non-finite critical pairs) "
-            "and model (NonFinite) are only checked to agree on that. Exact on lattice/half/dyadic input; on decimal input the code's rounded midpoints are certified within 1e-9*scale "
+            "and model (NonFinite) are only checked to agree on that. Exact on lattice/half/dyadic input; on decimal input the code's rounded midpoints are certified within 1e-9*largest |coordinate| "
             "(`certifyTol_sound`). The level stays translation validation because the real code is tied to the model only by the sampled "
             "correspondence and because the property as stated is false on the unchanged tree (known finding).",
     "technique": "Lean-verified certificate checker applied to the real code's output + proved model of the sweep + differential correspondence",
